@@ -484,7 +484,7 @@ fn oracle_file(spec: &str, queries: &str, data: &[u8], ann: &str) -> V {
                     .map(|s| rebase(&s, base))
                     .collect();
                 if got != want {
-                    return Err(format!("C14: notes of section {} differ from the reference walk", i));
+                    return Err(format!("C14: notes of section {} differ from the reference walk || FAIL C03: note names/descriptors of section {} are not the ABI-designated windows of the section's bytes", i, i));
                 }
             }
             if sh.sh_type != abi::SHT_REL {
@@ -535,7 +535,7 @@ fn oracle_file(spec: &str, queries: &str, data: &[u8], ann: &str) -> V {
                     .map(|s| rebase(&s, base))
                     .collect();
                 if got != want {
-                    return Err(format!("C14: notes of segment {} differ from the reference walk", i));
+                    return Err(format!("C14: notes of segment {} differ from the reference walk || FAIL C03: note names/descriptors of segment {} are not the ABI-designated windows of the segment's bytes", i, i));
                 }
             }
         }
